@@ -1,13 +1,663 @@
 package main
 
-import "github.com/vipnode/vipnode/v2/pool/store"
+// A real VipnodePool + PaymentService wired the way pool.go wires them, real
+// bidirectional jsonrpc2.Remote pairs over net.Pipe as connections, scripted
+// agent stubs at the far end, and an interpreter of abstract pool operations.
 
-type PoolWorld struct{}
+import (
+	"context"
+	"encoding/base64"
+	"encoding/hex"
+	"errors"
+	"fmt"
+	"math/big"
+	"net"
+	"regexp"
+	"strings"
+	"sync"
+	"time"
 
-func (w *World) newPool(op J) error               { return nil }
-func (p *PoolWorld) shutdown()                    {}
-func (p *PoolWorld) rebind(s store.Store)         {}
-func (p *PoolWorld) project(st J)                 {}
-func isPoolOp(name string) bool                   { return false }
-func (w *World) poolOp(op J) (J, error)           { return nil, nil }
+	"github.com/vipnode/vipnode/v2/ethnode"
+	"github.com/vipnode/vipnode/v2/jsonrpc2"
+	"github.com/vipnode/vipnode/v2/pool"
+	"github.com/vipnode/vipnode/v2/pool/balance"
+	"github.com/vipnode/vipnode/v2/pool/payment"
+	"github.com/vipnode/vipnode/v2/pool/store"
+	"github.com/vipnode/vipnode/v2/request"
+)
+
+// depositStore stands in for the contract proxy (pool/payment/contract.go):
+// it adds the on-chain deposit of the node's account to the stored balance.
+type depositStore struct {
+	mu    sync.Mutex
+	inner store.Store
+	dep   map[store.Account]*big.Int
+}
+
+func (d *depositStore) deposit(a store.Account) *big.Int {
+	d.mu.Lock()
+	defer d.mu.Unlock()
+	if v, ok := d.dep[a]; ok {
+		return new(big.Int).Set(v)
+	}
+	return new(big.Int)
+}
+
+func (d *depositStore) set(a store.Account, v *big.Int) {
+	d.mu.Lock()
+	defer d.mu.Unlock()
+	d.dep[a] = new(big.Int).Set(v)
+}
+
+func (d *depositStore) GetNodeBalance(nodeID store.NodeID) (store.Balance, error) {
+	b, err := d.inner.GetNodeBalance(nodeID)
+	if err != nil {
+		return b, err
+	}
+	if len(b.Account) == 0 {
+		return b, nil
+	}
+	b.Deposit = *d.deposit(b.Account)
+	return b, nil
+}
+
+func (d *depositStore) AddNodeBalance(nodeID store.NodeID, credit *big.Int) error {
+	return d.inner.AddNodeBalance(nodeID, credit)
+}
+
+func (d *depositStore) GetAccountBalance(account store.Account) (store.Balance, error) {
+	b, err := d.inner.GetAccountBalance(account)
+	if err != nil {
+		return b, err
+	}
+	b.Deposit = *d.deposit(account)
+	return b, nil
+}
+
+func (d *depositStore) AddAccountBalance(account store.Account, credit *big.Int) error {
+	return d.inner.AddAccountBalance(account, credit)
+}
+
+// HostStub is the agent end of a connection: it answers the pool's
+// vipnode_whitelist / vipnode_disconnect instructions as scripted.
+type HostStub struct {
+	pw   *PoolWorld
+	conn *Conn
+}
+
+func (h *HostStub) answer(method, nodeID string) error {
+	h.pw.mu.Lock()
+	mode := h.conn.mode
+	h.pw.calls = append(h.pw.calls, J{"conn": h.conn.name, "method": method, "arg": h.pw.w.names.abs(nodeID)})
+	h.pw.mu.Unlock()
+	switch mode {
+	case "ack":
+		return nil
+	case "slow":
+		time.Sleep(2 * time.Second)
+		return nil
+	case "err":
+		return errors.New("stub refuses")
+	case "hang":
+		<-h.conn.release
+		return errors.New("stub released")
+	}
+	return nil
+}
+
+func (h *HostStub) Whitelist(ctx context.Context, nodeID string) error {
+	return h.answer("vipnode_whitelist", nodeID)
+}
+
+func (h *HostStub) Disconnect(ctx context.Context, nodeID string) error {
+	return h.answer("vipnode_disconnect", nodeID)
+}
+
+type addrCodec struct {
+	jsonrpc2.Codec
+	addr string
+}
+
+func (c addrCodec) RemoteAddr() string { return c.addr }
+
+type Conn struct {
+	name     string
+	mode     string
+	addr     string
+	agent    *jsonrpc2.Remote
+	poolSide *jsonrpc2.Remote
+	pipe     net.Conn
+	closed   chan struct{}
+	release  chan struct{}
+	open     bool
+}
+
+type PoolWorld struct {
+	w      *World
+	pool   *pool.VipnodePool
+	pay    *payment.PaymentService
+	dep    *depositStore
+	server *jsonrpc2.Server
+	conns  map[string]*Conn
+
+	mu         sync.Mutex
+	calls      []J
+	paid       map[string]*big.Int
+	settleFail bool
+	lastPay    *big.Int
+}
+
+func optAmount(op J, k string, flag string) (int64, bool) {
+	if !boolean(op, flag) {
+		return 0, false
+	}
+	return num(op, k), true
+}
+
+func (w *World) newPool(op J) error {
+	pw := &PoolWorld{w: w, conns: map[string]*Conn{}, paid: map[string]*big.Int{}}
+	pw.dep = &depositStore{inner: w.store, dep: map[store.Account]*big.Int{}}
+	interval := time.Duration(num(op, "interval")) * time.Second
+	mgr := balance.PayPerInterval(pw.dep, interval, w.money.real(num(op, "price")))
+	if m, ok := optAmount(op, "minbal", "hasmin"); ok {
+		mgr.MinBalance = w.money.real(m)
+	}
+	p := pool.New(w.store, mgr)
+	p.Version = "vipverif"
+	p.MaxRequestHosts = int(num(op, "maxhosts"))
+	p.BlockNumberProvider = func(network ethnode.NetworkID) (uint64, error) {
+		stats, err := p.Store.Stats()
+		if err != nil {
+			return 0, err
+		}
+		return stats.LatestBlockNumber, nil
+	}
+	pw.pool = p
+	pay := &payment.PaymentService{
+		NonceStore:   w.store,
+		AccountStore: w.store,
+		BalanceStore: pw.dep,
+	}
+	fee := w.money.real(num(op, "fee"))
+	pay.WithdrawFee = func(amount *big.Int) *big.Int { return amount.Sub(amount, fee) }
+	if m, ok := optAmount(op, "wmin", "haswmin"); ok {
+		pay.WithdrawMin = w.money.real(m)
+	}
+	pay.Settle = func(account store.Account, paymentAmount *big.Int, newBalance *big.Int) (string, error) {
+		pw.mu.Lock()
+		fail := pw.settleFail
+		pw.mu.Unlock()
+		if fail {
+			return "", errors.New("settle failed: scripted")
+		}
+		pw.dep.set(account, newBalance)
+		pw.mu.Lock()
+		name := w.names.abs(string(account))
+		if pw.paid[name] == nil {
+			pw.paid[name] = new(big.Int)
+		}
+		pw.paid[name].Add(pw.paid[name], paymentAmount)
+		pw.lastPay = new(big.Int).Set(paymentAmount)
+		pw.mu.Unlock()
+		return "tx", nil
+	}
+	pw.pay = pay
+	pw.server = &jsonrpc2.Server{}
+	// exactly the registration of pool.go
+	if err := pw.server.Register("vipnode_", p, "connect", "disconnect", "ping", "update", "peer", "client", "host"); err != nil {
+		return err
+	}
+	if err := pw.server.Register("pool_", pay); err != nil {
+		return err
+	}
+	w.pool = pw
+	return nil
+}
+
+func (pw *PoolWorld) rebind(s store.Store) {
+	pw.pool.Store = s
+	pw.dep.inner = s
+	pw.pay.NonceStore = s
+	pw.pay.AccountStore = s
+}
+
+func (pw *PoolWorld) openConn(name, mode, addr string) {
+	c1, c2 := net.Pipe()
+	c := &Conn{name: name, mode: mode, addr: addr, pipe: c1, closed: make(chan struct{}), release: make(chan struct{}), open: true}
+	stub := &HostStub{pw: pw, conn: c}
+	agentServer := &jsonrpc2.Server{}
+	if err := agentServer.RegisterMethod("vipnode_whitelist", stub, "Whitelist"); err != nil {
+		panic(err)
+	}
+	if err := agentServer.RegisterMethod("vipnode_disconnect", stub, "Disconnect"); err != nil {
+		panic(err)
+	}
+	c.agent = &jsonrpc2.Remote{Codec: jsonrpc2.IOCodec(c1), Server: agentServer, Client: &jsonrpc2.Client{}}
+	c.poolSide = &jsonrpc2.Remote{
+		Codec:          addrCodec{jsonrpc2.IOCodec(c2), addr},
+		Server:         pw.server,
+		Client:         &jsonrpc2.Client{},
+		PendingLimit:   50,
+		PendingDiscard: 10,
+	}
+	go func() {
+		// what server.go does for a websocket connection
+		c.poolSide.Serve()
+		pw.pool.CloseRemote(c.poolSide)
+		c2.Close()
+		close(c.closed)
+	}()
+	go c.agent.Serve()
+	pw.conns[name] = c
+}
+
+func (pw *PoolWorld) closeConn(c *Conn) {
+	if !c.open {
+		return
+	}
+	c.open = false
+	close(c.release)
+	c.pipe.Close()
+	<-c.closed
+}
+
+func (pw *PoolWorld) shutdown() {
+	for _, c := range pw.conns {
+		pw.closeConn(c)
+	}
+}
+
+func isPoolOp(name string) bool {
+	switch name {
+	case "Open", "Mode", "Close", "Connect", "Host", "Client", "Update", "Peer", "AddNode", "Withdraw", "Account", "Deposit", "SettleMode", "Ping":
+		return true
+	}
+	return false
+}
+
+var reLow = regexp.MustCompile(`Current balance \((-?\d+)\) is less than the required minimum \((-?\d+)\)`)
+var reWmin = regexp.MustCompile(`account balance \((-?\d+)\) is below the minimum required to withdraw \((-?\d+)\)`)
+
+// classify maps an RPC error to an abstract error class (and value).
+func (pw *PoolWorld) classify(err error) J {
+	msg := err.Error()
+	val := interface{}([]interface{}{})
+	cls := "other: " + msg
+	switch {
+	case strings.Contains(msg, "failed to verify signature: invalid nonce"):
+		cls = "verify:nonce"
+	case strings.Contains(msg, "failed to verify signature"):
+		cls = "verify:sig"
+	case msg == "unregistered node":
+		cls = "unregistered"
+	case reLow.MatchString(msg):
+		cls = "lowbalance"
+		m := reLow.FindStringSubmatch(msg)
+		v, _ := new(big.Int).SetString(m[1], 10)
+		k, ok := pw.w.money.abs(v)
+		if !ok {
+			pw.w.tr.flagBad("reported balance %s is not a multiple of the unit", m[1])
+		}
+		val = k
+	case reWmin.MatchString(msg):
+		cls = "wmin"
+		m := reWmin.FindStringSubmatch(msg)
+		v, _ := new(big.Int).SetString(m[1], 10)
+		k, ok := pw.w.money.abs(v)
+		if !ok {
+			pw.w.tr.flagBad("reported balance %s is not a multiple of the unit", m[1])
+		}
+		val = k
+	case strings.HasPrefix(msg, "no host nodes available"), strings.HasPrefix(msg, "no available host nodes"):
+		cls = "nohosts"
+	case strings.HasPrefix(msg, `failed to call "vipnode_whitelist"`):
+		cls = "hosterrors"
+	case strings.Contains(msg, "NodeURI is missing host"), strings.Contains(msg, "does not match nodeURI"):
+		cls = "uri"
+	case strings.HasPrefix(msg, "settle failed"):
+		cls = "settle"
+	case msg == "withdraw is disabled":
+		cls = "disabled"
+	case strings.HasPrefix(msg, "method not found"):
+		cls = "nomethod"
+	case strings.HasPrefix(msg, "invalid params"):
+		cls = "badparams"
+	}
+	return J{"ok": false, "err": cls, "val": val}
+}
+
+func okRes(val interface{}) J {
+	if val == nil {
+		val = []interface{}{}
+	}
+	return J{"ok": true, "err": "", "val": val}
+}
+
+// legacyUpdate has the JSON shape of pool.oldUpdateRequest.
+type legacyUpdate struct {
+	Peers       []string `json:"peers"`
+	BlockNumber uint64   `json:"block_number"`
+}
+
+// signedArgs builds [sig, identity, nonce, params...] for a request, applying
+// the scripted alteration to what is sent (never to what the owner signed).
+func (pw *PoolWorld) signedArgs(op J, method string, wallet bool, params []interface{}, altParams []interface{}) []interface{} {
+	names := pw.w.names
+	identName := str(op, "ident")
+	alter := str(op, "alter")
+	if alter == "" {
+		alter = "none"
+	}
+	identity := names.node(identName)
+	if wallet {
+		identity = names.wallet(identName)
+	}
+	key := names.get(baseName(identName)).key
+	nonce := pw.w.clock.nonceReal(num(op, "nonce"))
+
+	signMethod, signIdent, signNonce, signParams := method, identity, nonce, params
+	sendIdent, sendNonce, sendParams := identity, nonce, params
+	switch alter {
+	case "method":
+		signMethod = method + "x"
+	case "method2": // signed for a sibling endpoint
+		signMethod = map[string]string{"vipnode_connect": "vipnode_update", "vipnode_update": "vipnode_peer", "vipnode_peer": "vipnode_connect",
+			"vipnode_host": "vipnode_connect", "vipnode_client": "vipnode_connect", "pool_addNode": "pool_withdraw", "pool_withdraw": "pool_addNode"}[method]
+	case "otherkey":
+		key = names.get(str(op, "other")).key
+	case "ident": // owner `other` signed a request naming itself; the request is re-addressed to ident
+		o := str(op, "other")
+		key = names.get(baseName(o)).key
+		signIdent = names.node(o)
+		if wallet {
+			signIdent = names.wallet(o)
+		}
+	case "nonce+1":
+		sendNonce = nonce + 1
+	case "nonce-1":
+		sendNonce = nonce - 1
+	case "nonce+s":
+		sendNonce = nonce + int64(time.Second)
+	case "param":
+		sendParams = altParams
+	case "legacy":
+		signParams = altParams
+	}
+	var sig string
+	var err error
+	if alter == "styleswap" {
+		// sign with the other identity style's scheme
+		if wallet {
+			sig, err = request.NodeRequest{Method: signMethod, NodeID: signIdent, Nonce: signNonce, ExtraArgs: signParams}.Sign(key)
+		} else {
+			sig, err = request.AddressRequest{Method: signMethod, Address: signIdent, Nonce: signNonce, ExtraArgs: signParams}.Sign(key)
+		}
+	} else {
+		sig, err = request.Sign(key, signMethod, signIdent, signNonce, signParams...)
+	}
+	if err != nil {
+		panic(err)
+	}
+	decode := func(s string) []byte {
+		var b []byte
+		if wallet {
+			b, _ = hex.DecodeString(s)
+		} else {
+			b, _ = base64.StdEncoding.DecodeString(s)
+		}
+		return b
+	}
+	encode := func(b []byte) string {
+		if wallet {
+			return hex.EncodeToString(b)
+		}
+		return base64.StdEncoding.EncodeToString(b)
+	}
+	switch {
+	case alter == "emptysig":
+		sig = ""
+	case alter == "garbagesig":
+		sig = "!!not a signature!!"
+	case alter == "shortsig":
+		sig = encode(decode(sig)[:int(num(op, "pos"))%64])
+	case alter == "zerosig":
+		sig = encode(make([]byte, 65))
+	case alter == "sigbyte":
+		b := decode(sig)
+		pos := int(num(op, "pos")) % 64
+		mask := byte(num(op, "mask"))
+		if mask == 0 {
+			mask = 1
+		}
+		b[pos] ^= mask
+		sig = encode(b)
+	case alter == "v27":
+		b := decode(sig)
+		b[64] += 27
+		sig = encode(b)
+	case alter == "hexprefix":
+		sig = "0x" + sig
+	case alter == "case":
+		// the identity is re-spelled after signing
+		if sendIdent == strings.ToLower(sendIdent) {
+			sendIdent = strings.ToUpper(sendIdent)
+		} else {
+			sendIdent = strings.ToLower(sendIdent)
+		}
+	}
+	args := []interface{}{sig, sendIdent, sendNonce}
+	return append(args, sendParams...)
+}
+
+func baseName(n string) string {
+	return strings.TrimSuffix(n, "L")
+}
+
+func (pw *PoolWorld) call(c *Conn, result interface{}, method string, args []interface{}) error {
+	ctx, cancel := context.WithTimeout(context.Background(), time.Hour)
+	defer cancel()
+	return c.agent.Call(ctx, result, method, args...)
+}
+
+func (w *World) poolOp(op J) (J, error) {
+	pw := w.pool
+	if pw == nil {
+		return nil, fmt.Errorf("pool op in a world without pool")
+	}
+	name := str(op, "op")
+	switch name {
+	case "Open":
+		pw.openConn(str(op, "conn"), str(op, "mode"), str(op, "addr"))
+		return okRes(nil), nil
+	case "Mode":
+		pw.mu.Lock()
+		pw.conns[str(op, "conn")].mode = str(op, "mode")
+		pw.mu.Unlock()
+		return okRes(nil), nil
+	case "Close":
+		pw.closeConn(pw.conns[str(op, "conn")])
+		return okRes(nil), nil
+	case "Deposit":
+		pw.dep.set(store.Account(w.names.wallet(str(op, "acct"))), w.money.real(num(op, "amt")))
+		return okRes(nil), nil
+	case "SettleMode":
+		pw.mu.Lock()
+		pw.settleFail = boolean(op, "fail")
+		pw.mu.Unlock()
+		return okRes(nil), nil
+	}
+	c := pw.conns[str(op, "conn")]
+	if c == nil || !c.open {
+		return nil, fmt.Errorf("%s on a connection that is not open: %q", name, str(op, "conn"))
+	}
+	switch name {
+	case "Ping":
+		var out string
+		if err := pw.call(c, &out, "vipnode_ping", nil); err != nil {
+			return pw.classify(err), nil
+		}
+		return okRes(out), nil
+	case "Connect":
+		mk := func(kind string, full bool, payout string) pool.ConnectRequest {
+			return pool.ConnectRequest{
+				VipnodeVersion: "vipverif",
+				NodeInfo:       ethnode.UserAgent{Version: "v", Kind: ethnode.ParseNodeKind(kind), IsFullNode: full},
+				NodeURI:        w.realURI(str(op, "uri")),
+				Payout:         w.names.wallet(payout),
+			}
+		}
+		req := mk(str(op, "kind"), boolean(op, "full"), str(op, "payout"))
+		alt := mk(str(op, "kind"), !boolean(op, "full"), str(op, "payout"))
+		var resp pool.ConnectResponse
+		if err := pw.call(c, &resp, "vipnode_connect", pw.signedArgs(op, "vipnode_connect", false, []interface{}{req}, []interface{}{alt})); err != nil {
+			return pw.classify(err), nil
+		}
+		return okRes(J{"version": resp.PoolVersion}), nil
+	case "Host":
+		req := pool.HostRequest{Kind: str(op, "kind"), Payout: w.names.wallet(str(op, "payout")), NodeURI: w.realURI(str(op, "uri"))}
+		alt := req
+		alt.Kind = req.Kind + "x"
+		var resp pool.HostResponse
+		if err := pw.call(c, &resp, "vipnode_host", pw.signedArgs(op, "vipnode_host", false, []interface{}{req}, []interface{}{alt})); err != nil {
+			return pw.classify(err), nil
+		}
+		return okRes(J{"version": resp.PoolVersion}), nil
+	case "Client":
+		req := pool.ClientRequest{Kind: str(op, "kind"), NumHosts: int(num(op, "num"))}
+		alt := req
+		alt.NumHosts = req.NumHosts + 1
+		var resp pool.ClientResponse
+		if err := pw.call(c, &resp, "vipnode_client", pw.signedArgs(op, "vipnode_client", false, []interface{}{req}, []interface{}{alt})); err != nil {
+			return pw.classify(err), nil
+		}
+		return okRes(w.nodeIDs(resp.Hosts)), nil
+	case "Update":
+		infos := []ethnode.PeerInfo{}
+		for _, p := range strs(op, "peers") {
+			infos = append(infos, ethnode.PeerInfo{ID: w.names.node(p)})
+		}
+		req := pool.UpdateRequest{PeerInfo: infos, BlockNumber: uint64(num(op, "block"))}
+		var alt interface{}
+		if str(op, "alter") == "legacy" {
+			alt = legacyUpdate{Peers: nil, BlockNumber: req.BlockNumber}
+		} else {
+			a := req
+			a.BlockNumber = req.BlockNumber + 1
+			alt = a
+		}
+		var resp pool.UpdateResponse
+		if err := pw.call(c, &resp, "vipnode_update", pw.signedArgs(op, "vipnode_update", false, []interface{}{req}, []interface{}{alt})); err != nil {
+			return pw.classify(err), nil
+		}
+		inv := []string{}
+		for _, id := range resp.InvalidPeers {
+			inv = append(inv, w.names.abs(id))
+		}
+		act := []string{}
+		for _, u := range resp.ActivePeers {
+			act = append(act, w.absURI(u))
+		}
+		val := J{"invalid": sorted(inv), "active": sorted(act), "latest": int64(resp.LatestBlockNumber)}
+		if resp.Balance != nil {
+			val["balance"] = w.balRec(*resp.Balance)
+		} else {
+			val["balance"] = J{"account": "", "credit": badAmount, "deposit": 0}
+			w.tr.flagBad("update reply without balance")
+		}
+		return okRes(val), nil
+	case "Peer":
+		req := pool.PeerRequest{Num: int(num(op, "num")), Kind: str(op, "kind")}
+		alt := req
+		alt.Num = req.Num + 1
+		var resp pool.PeerResponse
+		if err := pw.call(c, &resp, "vipnode_peer", pw.signedArgs(op, "vipnode_peer", false, []interface{}{req}, []interface{}{alt})); err != nil {
+			return pw.classify(err), nil
+		}
+		for _, n := range resp.Peers {
+			if !n.IsHost {
+				w.tr.flagBad("peer reply contains a node that is not a host")
+			}
+		}
+		return okRes(w.nodeIDs(resp.Peers)), nil
+	case "AddNode":
+		nodeID := w.names.node(str(op, "node"))
+		altNode := w.names.node(str(op, "altnode"))
+		var out interface{}
+		if err := pw.call(c, &out, "pool_addNode", pw.signedArgs(op, "pool_addNode", true, []interface{}{nodeID}, []interface{}{altNode})); err != nil {
+			return pw.classify(err), nil
+		}
+		return okRes(nil), nil
+	case "Withdraw":
+		pw.mu.Lock()
+		pw.lastPay = nil
+		pw.mu.Unlock()
+		var out interface{}
+		if err := pw.call(c, &out, "pool_withdraw", pw.signedArgs(op, "pool_withdraw", true, nil, nil)); err != nil {
+			return pw.classify(err), nil
+		}
+		pw.mu.Lock()
+		lp := pw.lastPay
+		pw.mu.Unlock()
+		if lp == nil {
+			w.tr.flagBad("withdraw succeeded without settling")
+			return okRes(badAmount), nil
+		}
+		k, ok := w.money.abs(lp)
+		if !ok {
+			w.tr.flagBad("paid %s is not a multiple of the unit", lp.String())
+		}
+		return okRes(k), nil
+	case "Account":
+		var resp payment.AccountResponse
+		if err := pw.call(c, &resp, "pool_account", []interface{}{w.names.wallet(str(op, "acct"))}); err != nil {
+			return pw.classify(err), nil
+		}
+		nodes := []string{}
+		for _, short := range resp.NodeShortIDs {
+			found := "raw:" + short
+			for _, n := range w.nodeNames {
+				if strings.HasPrefix(w.names.node(n), short) && n != "" {
+					found = n
+				}
+			}
+			nodes = append(nodes, found)
+		}
+		return okRes(J{"balance": w.balRec(resp.Balance), "nodes": sorted(nodes)}), nil
+	}
+	return nil, fmt.Errorf("unknown pool op %q", name)
+}
+
+// project adds the pool's observables to the projected state.
+func (pw *PoolWorld) project(st J) {
+	pw.mu.Lock()
+	defer pw.mu.Unlock()
+	st["numremotes"] = pw.pool.NumRemotes()
+	calls := pw.calls
+	if calls == nil {
+		calls = []J{}
+	}
+	st["calls"] = calls
+	pw.calls = nil
+	paid := J{}
+	dep := J{}
+	for _, a := range pw.w.acctNames {
+		v := pw.paid[a]
+		if v == nil {
+			v = new(big.Int)
+		}
+		k, ok := pw.w.money.abs(v)
+		if !ok {
+			pw.w.tr.flagBad("paid total %s is not a multiple of the unit", v.String())
+		}
+		paid[a] = k
+		d, ok := pw.w.money.abs(pw.dep.deposit(store.Account(pw.w.names.wallet(a))))
+		if !ok {
+			pw.w.tr.flagBad("deposit is not a multiple of the unit")
+		}
+		dep[a] = d
+	}
+	st["paid"] = paid
+	st["dep"] = dep
+}
+
 func extraCommand(cmd string, args []string) bool { return false }
